@@ -191,6 +191,11 @@ def base_raw_for(f: Field, rng: random.Random, db=None) -> int:
     if f.match is not None:
         return f.match & full
     t = f.ftype
+    if t == "PGN" and db is not None and rng.random() < 0.4:
+        # a PGN-typed field (ISO request, acknowledgement, transport protocol): PGN numbers the code under test mentions
+        known = [v for v in _harvested() if v in db.by_pgn and v <= full]
+        if known:
+            return rng.choice(known)
     if t in NUMERIC_TYPES:
         lo, hi = f.raw_bounds()
         if hi < lo:
@@ -241,6 +246,9 @@ def rand_text(rng: random.Random, n: int, unicode_: bool = False) -> str:
     if unicode_:
         alphabet += "äöüéèßØπλЖ日本"
     s = "".join(rng.choice(alphabet) for _ in range(n))
+    if unicode_ and n >= 2 and rng.random() < 0.25:
+        # characters that codecs treat specially at the start of a text: byte-order marks, a no-break space
+        s = rng.choice(["\ufeff", "\ufffe", "\u00a0", "\u200b"]) + s[1:]
     return s
 
 
